@@ -1,5 +1,1099 @@
 (** C15 — lemmas. *)
-From Coq Require Import List NArith Bool Lia.
+From Coq Require Import List Arith NArith ZArith Bool Lia Zify ZifyN ZifyBool.
 From SV Require Import C15.Gen C15.Model.
 Import ListNotations.
 Open Scope N_scope.
+
+Ltac case_if := match goal with |- context [if ?c then _ else _] => destruct c eqn:? end.
+
+(* ------------------------------------------------------------------ *)
+(** * Lengths *)
+
+Lemma len_nil : len [] = 0. Proof. reflexivity. Qed.
+
+Lemma len_cons a l : len (a :: l) = 1 + len l.
+Proof. unfold len. cbn [length]. lia. Qed.
+
+Lemma len_app a b : len (a ++ b) = len a + len b.
+Proof. unfold len. rewrite app_length. lia. Qed.
+
+Lemma len_firstn n l : n <= len l -> len (firstn (N.to_nat n) l) = n.
+Proof. unfold len. intros H. rewrite firstn_length. lia. Qed.
+
+Lemma len_skipn n l : len (skipn (N.to_nat n) l) = len l - n.
+Proof. unfold len. rewrite skipn_length. lia. Qed.
+
+Lemma take_spec n l a b :
+  take n l = Some (a, b) -> l = a ++ b /\ len a = n /\ len l = n + len b.
+Proof.
+  unfold take. destruct (len l <? n) eqn:E; [discriminate|].
+  apply N.ltb_ge in E. intros H. inversion H; subst. clear H.
+  split; [symmetry; apply firstn_skipn|].
+  split; [apply len_firstn; exact E|].
+  rewrite len_skipn. lia.
+Qed.
+
+Lemma take_none n l : take n l = None -> len l < n.
+Proof. unfold take. destruct (len l <? n) eqn:E; [|discriminate]. intros _. apply N.ltb_lt; exact E. Qed.
+
+Lemma take_app n a b : len a = n -> take n (a ++ b) = Some (a, b).
+Proof.
+  intros H. unfold take. rewrite len_app.
+  destruct (len a + len b <? n) eqn:E; [apply N.ltb_lt in E; lia|].
+  assert (Hn : N.to_nat n = length a) by (unfold len in H; lia).
+  rewrite Hn, firstn_app, skipn_app, Nat.sub_diag, firstn_all.
+  rewrite skipn_all. cbn [firstn skipn].
+  rewrite app_nil_r. reflexivity.
+Qed.
+
+Lemma be_u8_len l a r : be_u8 l = Some (a, r) -> len l = 1 + len r.
+Proof. destruct l; cbn [be_u8]; [discriminate|]. intros H; inversion H; subst. apply len_cons. Qed.
+
+Lemma be_u16_len l a r : be_u16 l = Some (a, r) -> len l = 2 + len r.
+Proof.
+  destruct l as [|x [|y l]]; cbn [be_u8 be_u16 be_u24 be_u32]; try discriminate. intros H; inversion H; subst.
+  rewrite !len_cons. lia.
+Qed.
+
+Lemma be_u24_len l a r : be_u24 l = Some (a, r) -> len l = 3 + len r.
+Proof.
+  destruct l as [|x [|y [|z l]]]; cbn [be_u8 be_u16 be_u24 be_u32]; try discriminate. intros H; inversion H; subst.
+  rewrite !len_cons. lia.
+Qed.
+
+Lemma be_u32_len l a r : be_u32 l = Some (a, r) -> len l = 4 + len r.
+Proof.
+  destruct l as [|x [|y [|z [|w l]]]]; cbn [be_u8 be_u16 be_u24 be_u32]; try discriminate. intros H; inversion H; subst.
+  rewrite !len_cons. lia.
+Qed.
+
+Lemma be_u24_none l : be_u24 l = None -> len l < 3.
+Proof. destruct l as [|x [|y [|z l]]]; cbn [be_u8 be_u16 be_u24 be_u32]; try discriminate; intros _; rewrite ?len_cons, ?len_nil; lia. Qed.
+Lemma be_u8_none l : be_u8 l = None -> len l < 1.
+Proof. destruct l; cbn [be_u8]; try discriminate; intros _; rewrite ?len_nil; lia. Qed.
+Lemma be_u32_none l : be_u32 l = None -> len l < 4.
+Proof. destruct l as [|x [|y [|z [|w l]]]]; cbn [be_u8 be_u16 be_u24 be_u32]; try discriminate; intros _; rewrite ?len_cons, ?len_nil; lia. Qed.
+
+(* ------------------------------------------------------------------ *)
+(** * [frame_header] *)
+
+Lemma frame_header_ok input max rest h :
+  frame_header input max = POk rest h ->
+  len input = 9 + len rest /\ payload_len h <= max /\ stream_id h < 2147483648 /\
+  valid_stream_id (ftyp h) (stream_id h) = true.
+Proof.
+  unfold frame_header.
+  destruct (be_u24 input) as [[plen i1]|] eqn:E1; [|discriminate].
+  destruct (max <? plen) eqn:Emax; [discriminate|].
+  destruct (be_u8 i1) as [[t i2]|] eqn:E2; [|discriminate].
+  destruct (be_u8 i2) as [[fl i3]|] eqn:E3; [|discriminate].
+  destruct (be_u32 i3) as [[raw i4]|] eqn:E4; [|discriminate].
+  destruct (valid_stream_id _ _) eqn:Ev; [|discriminate].
+  intros H; inversion H; subst; clear H. cbn [payload_len stream_id ftyp].
+  apply be_u24_len in E1. apply be_u8_len in E2. apply be_u8_len in E3. apply be_u32_len in E4.
+  apply N.ltb_ge in Emax.
+  repeat split; try lia; try exact Ev.
+  change STREAM_ID_MASK with (N.ones 31). rewrite N.land_ones.
+  apply N.mod_lt. discriminate.
+Qed.
+
+Lemma frame_header_short input max :
+  frame_header input max = PShort -> len input < 9.
+Proof.
+  unfold frame_header.
+  destruct (be_u24 input) as [[plen i1]|] eqn:E1; [|intros _; apply be_u24_none in E1; lia].
+  destruct (max <? plen); [discriminate|].
+  apply be_u24_len in E1.
+  destruct (be_u8 i1) as [[t i2]|] eqn:E2; [|intros _; apply be_u8_none in E2; lia].
+  apply be_u8_len in E2.
+  destruct (be_u8 i2) as [[fl i3]|] eqn:E3; [|intros _; apply be_u8_none in E3; lia].
+  apply be_u8_len in E3.
+  destruct (be_u32 i3) as [[raw i4]|] eqn:E4; [|intros _; apply be_u32_none in E4; lia].
+  destruct (valid_stream_id _ _); discriminate.
+Qed.
+
+Lemma frame_header_not_inner input max : frame_header input max <> PInner.
+Proof.
+  unfold frame_header.
+  destruct (be_u24 input) as [[plen i1]|]; [|discriminate].
+  destruct (max <? plen); [discriminate|].
+  destruct (be_u8 i1) as [[t i2]|]; [|discriminate].
+  destruct (be_u8 i2) as [[fl i3]|]; [|discriminate].
+  destruct (be_u32 i3) as [[raw i4]|]; [|discriminate].
+  destruct (valid_stream_id _ _); discriminate.
+Qed.
+
+(* ------------------------------------------------------------------ *)
+(** * Well-formedness of a decoded frame with respect to its header *)
+
+Definition wf_frame (h : fheader) (f : frame) : Prop :=
+  match f with
+  | Data sid st p _ => ftyp h = FData /\ sid = stream_id h /\ st + len p <= payload_len h
+  | Headers sid _ st fr _ _ => ftyp h = FHeaders /\ sid = stream_id h /\ st + len fr <= payload_len h
+  | Priority sid _ => ftyp h = FPriority /\ sid = stream_id h /\ payload_len h = 5
+  | RstStream sid _ => ftyp h = FRstStream /\ sid = stream_id h /\ payload_len h = 4
+  | Settings es ack =>
+    ftyp h = FSettings /\ payload_len h = 6 * N.of_nat (length es) /\ N.of_nat (length es) <= 64 /\ (ack = true -> payload_len h = 0)
+  | Ping p _ => ftyp h = FPing /\ payload_len h = 8 /\ len p = 8
+  | GoAway l _ st d => ftyp h = FGoAway /\ 8 <= payload_len h /\ st = 8 /\ len d = payload_len h - 8 /\ l < 2147483648
+  | WindowUpdate sid i => ftyp h = FWindowUpdate /\ sid = stream_id h /\ payload_len h = 4 /\ i < 2147483648
+  | Continuation => ftyp h = FContinuation
+  | PriorityUpdate s v =>
+    ftyp h = FPriorityUpdate /\ 4 <= payload_len h /\ len v = payload_len h - 4 /\ len v <= 1024 /\ s < 2147483648
+  | Unknown t => ftyp h = FUnknown t
+  end.
+
+Lemma land_mask_lt v : N.land v STREAM_ID_MASK < 2147483648.
+Proof. change STREAM_ID_MASK with (N.ones 31). rewrite N.land_ones. apply N.mod_lt. discriminate. Qed.
+
+Lemma strip_padding_ok i fl i' pad :
+  strip_padding i fl = POk i' pad ->
+  len i' <= len i /\ pad <= len i' /\ (has_flag fl FLAG_PADDED = false -> i' = i /\ pad = 0).
+Proof.
+  unfold strip_padding. destruct (has_flag fl FLAG_PADDED).
+  - destruct (be_u8 i) as [[p r]|] eqn:E; [|discriminate].
+    destruct (len r <? p) eqn:El; [discriminate|]. apply N.ltb_ge in El.
+    intros H; inversion H; subst. apply be_u8_len in E.
+    repeat split; try lia; try discriminate.
+  - intros H; inversion H; subst. repeat split; try lia; try reflexivity.
+Qed.
+
+Lemma strip_padding_not_short i fl : strip_padding i fl <> PShort.
+Proof.
+  unfold strip_padding. destruct (has_flag fl FLAG_PADDED); [|discriminate].
+  destruct (be_u8 i) as [[p r]|]; [|discriminate]. destruct (len r <? p); discriminate.
+Qed.
+
+Lemma unpad_ok i pad p : unpad i pad = Some p -> len p = len i - pad /\ pad <= len i.
+Proof.
+  unfold unpad. destruct (len i <? pad) eqn:E; [discriminate|]. apply N.ltb_ge in E.
+  intros H; inversion H; subst. split; [|exact E]. apply len_firstn. lia.
+Qed.
+
+Lemma settings_entries_len fuel data :
+  (length data <= fuel)%nat ->
+  6 * N.of_nat (length (settings_entries fuel data)) <= len data /\
+  (len data mod 6 = 0 -> 6 * N.of_nat (length (settings_entries fuel data)) = len data).
+Proof.
+  revert data. induction fuel as [|fuel IH]; intros data Hf.
+  - destruct data; [|cbn [length] in Hf; lia]. cbn [settings_entries length]. rewrite len_nil.
+    split; [lia|reflexivity].
+  - cbn [settings_entries].
+    destruct (be_u16 data) as [[id r]|] eqn:E1.
+    + destruct (be_u32 r) as [[v r']|] eqn:E2.
+      * pose proof (be_u16_len _ _ _ E1) as L1. pose proof (be_u32_len _ _ _ E2) as L2.
+        assert (Hf' : (length r' <= fuel)%nat) by (unfold len in *; lia).
+        destruct (IH r' Hf') as [IH1 IH2]. cbn [length].
+        split; [lia|]. intros Hm.
+        assert (Hm' : len r' mod 6 = 0).
+        { replace (len data) with (len r' + 1 * 6) in Hm by lia.
+          rewrite N.mod_add in Hm by discriminate. exact Hm. }
+        specialize (IH2 Hm'). lia.
+      * cbn [length]. split; [lia|]. intros Hm. exfalso.
+        apply be_u16_len in E1. apply be_u32_none in E2.
+        assert (len data < 6) by lia.
+        rewrite N.mod_small in Hm by lia.
+        lia.
+    + cbn [length]. split; [lia|]. intros Hm.
+      assert (len data < 2).
+      { destruct data as [|x [|y l]]; cbn [be_u16] in E1; try discriminate; rewrite ?len_cons, ?len_nil; lia. }
+      rewrite N.mod_small in Hm by lia. lia.
+Qed.
+
+(** Every per-type parser consumes exactly [payload_len] bytes and yields a
+    frame that lies inside that payload. *)
+Lemma frame_body_ok i h rest f :
+  frame_body i h = POk rest f ->
+  len i = payload_len h + len rest /\ wf_frame h f.
+Proof.
+  unfold frame_body. destruct (ftyp h) eqn:Et.
+  - (* DATA *)
+    unfold data_frame. destruct (take _ i) as [[p rem]|] eqn:T; [|discriminate].
+    apply take_spec in T. destruct T as (_ & Lp & Li).
+    destruct (strip_padding p (fflags h)) as [i' pad| | |] eqn:S; try discriminate.
+    destruct (unpad i' pad) as [pl|] eqn:U; [|discriminate].
+    intros H; inversion H; subst; clear H.
+    apply strip_padding_ok in S. apply unpad_ok in U. cbn [wf_frame].
+    repeat split; try assumption; try reflexivity; lia.
+  - (* HEADERS *)
+    unfold headers_frame. destruct (take _ i) as [[p rem]|] eqn:T; [|discriminate].
+    apply take_spec in T. destruct T as (_ & Lp & Li).
+    destruct (strip_padding p (fflags h)) as [i1 pad| | |] eqn:S; try discriminate.
+    apply strip_padding_ok in S.
+    destruct (has_flag (fflags h) FLAG_PRIORITY).
+    + unfold stream_dependency.
+      destruct (be_u32 i1) as [[v r]|] eqn:E1; [|discriminate].
+      destruct (be_u8 r) as [[w i3]|] eqn:E2; [|discriminate].
+      destruct (unpad i3 pad) as [fr|] eqn:U; [|discriminate].
+      intros H; inversion H; subst; clear H.
+      apply be_u32_len in E1. apply be_u8_len in E2. apply unpad_ok in U. cbn [wf_frame].
+      repeat split; try assumption; try reflexivity; lia.
+    + destruct (unpad i1 pad) as [fr|] eqn:U; [|discriminate].
+      intros H; inversion H; subst; clear H. apply unpad_ok in U. cbn [wf_frame].
+      repeat split; try assumption; try reflexivity; lia.
+  - (* PRIORITY *)
+    destruct (payload_len h =? PRIORITY_PAYLOAD_SIZE) eqn:Es; [|discriminate].
+    apply N.eqb_eq in Es. change PRIORITY_PAYLOAD_SIZE with 5 in Es.
+    unfold priority_frame. destruct (take _ i) as [[p rem]|] eqn:T; [|discriminate].
+    apply take_spec in T. destruct T as (_ & Lp & Li).
+    destruct (stream_dependency p) as [[[ex d] r]|]; [|discriminate].
+    destruct (be_u8 r) as [[w r']|]; [|discriminate].
+    intros H; inversion H; subst; clear H. cbn [wf_frame]. repeat split; try assumption; lia.
+  - (* RST_STREAM *)
+    destruct (payload_len h =? RST_STREAM_PAYLOAD_SIZE) eqn:Es; [|discriminate].
+    apply N.eqb_eq in Es. change RST_STREAM_PAYLOAD_SIZE with 4 in Es.
+    unfold rst_stream_frame. destruct (take _ i) as [[p rem]|] eqn:T; [|discriminate].
+    apply take_spec in T. destruct T as (_ & Lp & Li).
+    destruct (be_u32 p) as [[c r]|]; [|discriminate].
+    intros H; inversion H; subst; clear H. cbn [wf_frame]. repeat split; try assumption; lia.
+  - (* SETTINGS *)
+    destruct (has_flag (fflags h) FLAG_ACK && negb (payload_len h =? 0)) eqn:Ea; [discriminate|].
+    destruct (payload_len h mod SETTINGS_ENTRY_SIZE =? 0) eqn:Em; [|discriminate].
+    apply N.eqb_eq in Em. change SETTINGS_ENTRY_SIZE with 6 in Em.
+    unfold settings_frame.
+    destruct (MAX_SETTINGS_ENTRIES <? payload_len h / SETTINGS_ENTRY_SIZE) eqn:Ec; [discriminate|].
+    apply N.ltb_ge in Ec. change SETTINGS_ENTRY_SIZE with 6 in Ec. change MAX_SETTINGS_ENTRIES with 64 in Ec.
+    destruct (take _ i) as [[p rem]|] eqn:T; [|discriminate].
+    apply take_spec in T. destruct T as (_ & Lp & Li).
+    intros H; inversion H; subst; clear H. cbn [wf_frame].
+    destruct (settings_entries_len (length p) p (le_n _)) as [_ S2].
+    rewrite Lp in S2. specialize (S2 Em).
+    assert (Hdiv : payload_len h = 6 * (payload_len h / 6)).
+    { pose proof (N.div_mod (payload_len h) 6). lia. }
+    repeat split; try assumption; try lia.
+    all: intros Hack; rewrite Hack in Ea; cbn in Ea;
+      destruct (payload_len h =? 0) eqn:E0; [apply N.eqb_eq in E0; exact E0|discriminate].
+  - (* PUSH_PROMISE *)
+    unfold push_promise_frame. destruct (take _ i); discriminate.
+  - (* PING *)
+    destruct (payload_len h =? PING_PAYLOAD_SIZE) eqn:Es; [|discriminate].
+    apply N.eqb_eq in Es. change PING_PAYLOAD_SIZE with 8 in Es.
+    unfold ping_frame. destruct (take _ i) as [[p rem]|] eqn:T; [|discriminate].
+    apply take_spec in T. destruct T as (_ & Lp & Li).
+    remember (firstn 8 p) as pp eqn:Hpp.
+    intros H; inversion H; subst rest f; clear H. cbn [wf_frame].
+    repeat split; try assumption; try lia.
+    rewrite Hpp. change 8%nat with (N.to_nat 8). apply len_firstn. lia.
+  - (* GOAWAY *)
+    destruct (GOAWAY_PAYLOAD_SIZE <=? payload_len h) eqn:Es; [|discriminate].
+    apply N.leb_le in Es. change GOAWAY_PAYLOAD_SIZE with 8 in Es.
+    unfold goaway_frame. destruct (take _ i) as [[p rem]|] eqn:T; [|discriminate].
+    apply take_spec in T. destruct T as (_ & Lp & Li).
+    destruct (be_u32 p) as [[raw i1]|] eqn:E1; [|discriminate].
+    destruct (be_u32 i1) as [[code dbg]|] eqn:E2; [|discriminate].
+    intros H; inversion H; subst; clear H. cbn [wf_frame].
+    apply be_u32_len in E1. apply be_u32_len in E2.
+    repeat split; try assumption; try lia. apply land_mask_lt.
+  - (* WINDOW_UPDATE *)
+    destruct (payload_len h =? WINDOW_UPDATE_PAYLOAD_SIZE) eqn:Es; [|discriminate].
+    apply N.eqb_eq in Es. change WINDOW_UPDATE_PAYLOAD_SIZE with 4 in Es.
+    unfold window_update_frame. destruct (take _ i) as [[p rem]|] eqn:T; [|discriminate].
+    apply take_spec in T. destruct T as (_ & Lp & Li).
+    destruct (be_u32 p) as [[c r]|]; [|discriminate].
+    intros H; inversion H; subst; clear H. cbn [wf_frame].
+    repeat split; try assumption; try lia. apply land_mask_lt.
+  - (* CONTINUATION *)
+    unfold continuation_frame. destruct (take _ i) as [[p rem]|] eqn:T; [|discriminate].
+    apply take_spec in T. destruct T as (_ & Lp & Li).
+    intros H; inversion H; subst; clear H. cbn [wf_frame]. split; [lia|assumption].
+  - (* PRIORITY_UPDATE *)
+    unfold priority_update_frame.
+    destruct (payload_len h <? PRIORITY_UPDATE_MIN_PAYLOAD) eqn:E1; [discriminate|].
+    destruct (PRIORITY_UPDATE_MAX_VALUE <? _) eqn:E2; [discriminate|].
+    apply N.ltb_ge in E1, E2.
+    change PRIORITY_UPDATE_MIN_PAYLOAD with 4 in *. change PRIORITY_UPDATE_MAX_VALUE with 1024 in *.
+    destruct (take _ i) as [[p rem]|] eqn:T; [|discriminate].
+    apply take_spec in T. destruct T as (_ & Lp & Li).
+    destruct (be_u32 p) as [[raw v]|] eqn:E3; [|discriminate].
+    intros H; inversion H; subst; clear H. cbn [wf_frame]. apply be_u32_len in E3.
+    repeat split; try assumption; try lia. apply land_mask_lt.
+  - (* unknown *)
+    unfold unknown_frame. destruct (take _ i) as [[p rem]|] eqn:T; [|discriminate].
+    apply take_spec in T. destruct T as (_ & Lp & Li).
+    intros H; inversion H; subst; clear H. cbn [wf_frame]. rewrite Et. split; [lia|reflexivity].
+Qed.
+
+(** A parser asks for more input only when the payload is really incomplete. *)
+Lemma frame_body_short i h : frame_body i h = PShort -> len i < payload_len h.
+Proof.
+  unfold frame_body. destruct (ftyp h).
+  - unfold data_frame. destruct (take _ i) as [[p rem]|] eqn:T; [|intros _; apply take_none in T; exact T].
+    destruct (strip_padding p (fflags h)) eqn:S; try discriminate.
+    + destruct (unpad _ _); discriminate.
+    + exfalso. eapply strip_padding_not_short; eauto.
+  - unfold headers_frame. destruct (take _ i) as [[p rem]|] eqn:T; [|intros _; apply take_none in T; exact T].
+    destruct (strip_padding p (fflags h)) as [i1 pad| | |] eqn:S; try discriminate.
+    + destruct (has_flag (fflags h) FLAG_PRIORITY).
+      * destruct (stream_dependency i1) as [[[ex d] r]|]; [|discriminate].
+        destruct (be_u8 r) as [[w i3]|]; [|discriminate]. destruct (unpad _ _); discriminate.
+      * destruct (unpad _ _); discriminate.
+    + exfalso. eapply strip_padding_not_short; eauto.
+  - case_if; [|discriminate]. unfold priority_frame.
+    destruct (take _ i) as [[p rem]|] eqn:T; [|intros _; apply take_none in T; exact T].
+    destruct (stream_dependency p) as [[[ex d] r]|]; [|discriminate]. destruct (be_u8 r) as [[w r']|]; discriminate.
+  - case_if; [|discriminate]. unfold rst_stream_frame.
+    destruct (take _ i) as [[p rem]|] eqn:T; [|intros _; apply take_none in T; exact T].
+    destruct (be_u32 p) as [[c r]|]; discriminate.
+  - case_if; [discriminate|]. case_if; [|discriminate]. unfold settings_frame. case_if; [discriminate|].
+    destruct (take _ i) as [[p rem]|] eqn:T; [|intros _; apply take_none in T; exact T]. discriminate.
+  - unfold push_promise_frame.
+    destruct (take _ i) as [[p rem]|] eqn:T; [|intros _; apply take_none in T; exact T]. discriminate.
+  - case_if; [|discriminate]. unfold ping_frame.
+    destruct (take _ i) as [[p rem]|] eqn:T; [|intros _; apply take_none in T; exact T]. discriminate.
+  - case_if; [|discriminate]. unfold goaway_frame.
+    destruct (take _ i) as [[p rem]|] eqn:T; [|intros _; apply take_none in T; exact T].
+    destruct (be_u32 p) as [[raw i1]|]; [|discriminate]. destruct (be_u32 i1) as [[c dbg]|]; discriminate.
+  - case_if; [|discriminate]. unfold window_update_frame.
+    destruct (take _ i) as [[p rem]|] eqn:T; [|intros _; apply take_none in T; exact T].
+    destruct (be_u32 p) as [[c r]|]; discriminate.
+  - unfold continuation_frame.
+    destruct (take _ i) as [[p rem]|] eqn:T; [|intros _; apply take_none in T; exact T]. discriminate.
+  - unfold priority_update_frame. case_if; [discriminate|]. case_if; [discriminate|].
+    destruct (take _ i) as [[p rem]|] eqn:T; [|intros _; apply take_none in T; exact T].
+    destruct (be_u32 p) as [[raw v]|]; discriminate.
+  - unfold unknown_frame.
+    destruct (take _ i) as [[p rem]|] eqn:T; [|intros _; apply take_none in T; exact T]. discriminate.
+Qed.
+
+(** * [decoder_consumes_exactly] *)
+Lemma decoder_consumes_exactly_l input max :
+  match decode_frame input max with
+  | Ok consumed h f =>
+    consumed = 9 + payload_len h /\ consumed <= len input /\ payload_len h <= max /\
+    stream_id h < 2147483648 /\ wf_frame h f
+  | Incomplete =>
+    len input < 9 \/ exists rest h, frame_header input max = POk rest h /\ len input < 9 + payload_len h
+  | Fail _ => True
+  end.
+Proof.
+  unfold decode_frame.
+  destruct (frame_header input max) as [rest h| | |e] eqn:H.
+  - pose proof (frame_header_ok _ _ _ _ H) as (L & M & S & _).
+    destruct (frame_body rest h) as [rest' f| | |e] eqn:B.
+    + apply frame_body_ok in B. destruct B as [Lb W]. repeat split; try assumption; lia.
+    + right. exists rest, h. split; [reflexivity|]. apply frame_body_short in B. lia.
+    + exact I.
+    + exact I.
+  - left. apply frame_header_short in H. exact H.
+  - exfalso. eapply frame_header_not_inner; eauto.
+  - exact I.
+Qed.
+
+(* ------------------------------------------------------------------ *)
+(** * Big-endian encode/decode *)
+
+Lemma mod_split n m k : m * 256 = k -> m <> 0 -> n mod k = n mod m + m * ((n / m) mod 256).
+Proof. intros <- Hm. apply N.mod_mul_r; [exact Hm|discriminate]. Qed.
+
+Lemma be_u32_enc n tl : be_u32 (enc_u32 n ++ tl) = Some (n mod 4294967296, tl).
+Proof.
+  unfold enc_u32, byte. cbn [app be_u32].
+  change (2 ^ (8 * 3)) with 16777216. change (2 ^ (8 * 2)) with 65536.
+  change (2 ^ (8 * 1)) with 256. change (2 ^ (8 * 0)) with 1.
+  f_equal. f_equal. rewrite N.div_1_r.
+  rewrite (mod_split n 16777216 4294967296) by (reflexivity || discriminate).
+  rewrite (mod_split n 65536 16777216) by (reflexivity || discriminate).
+  rewrite (mod_split n 256 65536) by (reflexivity || discriminate).
+  lia.
+Qed.
+
+Lemma be_u24_enc n tl : be_u24 (enc_u24 n ++ tl) = Some (n mod 16777216, tl).
+Proof.
+  unfold enc_u24, byte. cbn [app be_u24].
+  change (2 ^ (8 * 2)) with 65536. change (2 ^ (8 * 1)) with 256. change (2 ^ (8 * 0)) with 1.
+  f_equal. f_equal. rewrite N.div_1_r.
+  rewrite (mod_split n 65536 16777216) by (reflexivity || discriminate).
+  rewrite (mod_split n 256 65536) by (reflexivity || discriminate).
+  lia.
+Qed.
+
+Lemma be_u16_enc n tl : be_u16 (enc_u16 n ++ tl) = Some (n mod 65536, tl).
+Proof.
+  unfold enc_u16, byte. cbn [app be_u16].
+  change (2 ^ (8 * 1)) with 256. change (2 ^ (8 * 0)) with 1.
+  f_equal. f_equal. rewrite N.div_1_r.
+  rewrite (mod_split n 256 65536) by (reflexivity || discriminate).
+  lia.
+Qed.
+
+(* ------------------------------------------------------------------ *)
+(** * Round trip: what the serializer emits decodes to what was meant *)
+
+Definition known_type (f : ftype) : Prop := match f with FUnknown _ => False | _ => True end.
+
+Lemma convert_serialize f : known_type f -> convert_frame_type (serialize_frame_type f mod 256) = f.
+Proof. destruct f; cbn [known_type]; intros H; try contradiction; vm_compute; reflexivity. Qed.
+
+Lemma land_mask_idem v : N.land (N.land v STREAM_ID_MASK mod 4294967296) STREAM_ID_MASK = N.land v STREAM_ID_MASK.
+Proof.
+  pose proof (land_mask_lt v) as H.
+  rewrite N.mod_small by lia.
+  rewrite <- N.land_assoc, N.land_diag. reflexivity.
+Qed.
+
+Lemma frame_header_roundtrip h tl max :
+  known_type (ftyp h) ->
+  payload_len h < 16777216 -> payload_len h <= max -> fflags h < 256 ->
+  valid_stream_id (ftyp h) (N.land (stream_id h) STREAM_ID_MASK) = true ->
+  frame_header (frame_header_bytes h ++ tl) max =
+  POk tl (mkfh (payload_len h) (ftyp h) (fflags h) (N.land (stream_id h) STREAM_ID_MASK)).
+Proof.
+  intros Hk Hp Hm Hf Hv. unfold frame_header_bytes, frame_header.
+  rewrite <- !app_assoc. rewrite be_u24_enc. rewrite (N.mod_small _ _ Hp).
+  destruct (max <? payload_len h) eqn:E; [apply N.ltb_lt in E; lia|].
+  cbn [app be_u8]. rewrite be_u32_enc.
+  rewrite convert_serialize by exact Hk. rewrite land_mask_idem. rewrite Hv.
+  rewrite (N.mod_small _ _ Hf). reflexivity.
+Qed.
+
+Lemma decode_frame_parts hb body tl max h f :
+  len hb = 9 -> len body = payload_len h ->
+  frame_header (hb ++ body ++ tl) max = POk (body ++ tl) h ->
+  frame_body (body ++ tl) h = POk tl f ->
+  decode_frame (hb ++ body ++ tl) max = Ok (9 + payload_len h) h f.
+Proof.
+  intros Lh Lb H B. unfold decode_frame. rewrite H, B. f_equal.
+  rewrite !len_app. lia.
+Qed.
+
+Lemma frame_header_bytes_len h : len (frame_header_bytes h) = 9.
+Proof. reflexivity. Qed.
+
+Lemma be_u32_enc_nil n : be_u32 (enc_u32 n) = Some (n mod 4294967296, []).
+Proof. rewrite <- (app_nil_r (enc_u32 n)). apply be_u32_enc. Qed.
+
+(** RST_STREAM *)
+Lemma rst_stream_roundtrip sid code tl max :
+  N.land sid STREAM_ID_MASK <> 0 -> code < 4294967296 -> 4 <= max ->
+  decode_frame (rst_stream_bytes sid code ++ tl) max =
+  Ok 13 (mkfh 4 FRstStream 0 (N.land sid STREAM_ID_MASK)) (RstStream (N.land sid STREAM_ID_MASK) code).
+Proof.
+  intros Hs Hc Hm. unfold rst_stream_bytes. rewrite <- app_assoc.
+  change RST_STREAM_PAYLOAD_SIZE with 4.
+  set (h := mkfh 4 FRstStream 0 sid).
+  assert (Hh : frame_header (frame_header_bytes h ++ enc_u32 code ++ tl) max =
+               POk (enc_u32 code ++ tl) (mkfh 4 FRstStream 0 (N.land sid STREAM_ID_MASK))).
+  { apply (frame_header_roundtrip h); cbn; try lia; try exact I.
+    all: unfold valid_stream_id; cbn; destruct (N.land sid STREAM_ID_MASK =? 0) eqn:E; [apply N.eqb_eq in E; contradiction|reflexivity]. }
+  change 13 with (9 + payload_len (mkfh 4 FRstStream 0 (N.land sid STREAM_ID_MASK))).
+  apply decode_frame_parts; [reflexivity|reflexivity|exact Hh|].
+  unfold frame_body. cbn [ftyp payload_len]. change (4 =? RST_STREAM_PAYLOAD_SIZE) with true. cbv iota.
+  unfold rst_stream_frame. cbn [payload_len stream_id].
+  rewrite (take_app 4 (enc_u32 code) tl) by reflexivity.
+  rewrite be_u32_enc_nil. rewrite N.mod_small by exact Hc. reflexivity.
+Qed.
+
+(** WINDOW_UPDATE *)
+Lemma window_update_roundtrip sid incr tl max :
+  4 <= max ->
+  decode_frame (window_update_bytes sid incr ++ tl) max =
+  Ok 13 (mkfh 4 FWindowUpdate 0 (N.land sid STREAM_ID_MASK))
+     (WindowUpdate (N.land sid STREAM_ID_MASK) (N.land incr STREAM_ID_MASK)).
+Proof.
+  intros Hm. unfold window_update_bytes. rewrite <- app_assoc.
+  change WINDOW_UPDATE_PAYLOAD_SIZE with 4.
+  set (h := mkfh 4 FWindowUpdate 0 sid).
+  set (body := enc_u32 (N.land incr STREAM_ID_MASK)).
+  assert (Hh : frame_header (frame_header_bytes h ++ body ++ tl) max =
+               POk (body ++ tl) (mkfh 4 FWindowUpdate 0 (N.land sid STREAM_ID_MASK))).
+  { apply (frame_header_roundtrip h); cbn; try lia; try exact I. all: reflexivity. }
+  change 13 with (9 + payload_len (mkfh 4 FWindowUpdate 0 (N.land sid STREAM_ID_MASK))).
+  apply decode_frame_parts; [reflexivity|reflexivity|exact Hh|].
+  unfold frame_body. cbn [ftyp payload_len]. change (4 =? WINDOW_UPDATE_PAYLOAD_SIZE) with true. cbv iota.
+  unfold window_update_frame. cbn [payload_len stream_id].
+  rewrite (take_app 4 body tl) by reflexivity.
+  unfold body. rewrite be_u32_enc_nil. rewrite land_mask_idem. reflexivity.
+Qed.
+
+(** GOAWAY *)
+Lemma goaway_roundtrip last code tl max :
+  code < 4294967296 -> 8 <= max ->
+  decode_frame (goaway_bytes last code ++ tl) max =
+  Ok 17 (mkfh 8 FGoAway 0 0) (GoAway (N.land last STREAM_ID_MASK) code 8 []).
+Proof.
+  intros Hc Hm. unfold goaway_bytes. rewrite <- !app_assoc.
+  change GOAWAY_PAYLOAD_SIZE with 8.
+  set (h := mkfh 8 FGoAway 0 0).
+  set (body := enc_u32 (N.land last STREAM_ID_MASK) ++ enc_u32 code).
+  assert (Hh : frame_header (frame_header_bytes h ++ body ++ tl) max = POk (body ++ tl) (mkfh 8 FGoAway 0 0)).
+  { apply (frame_header_roundtrip h); cbn; try lia; try exact I. all: reflexivity. }
+  subst h. change 17 with (9 + payload_len (mkfh 8 FGoAway 0 0)).
+  replace (enc_u32 (N.land last STREAM_ID_MASK) ++ enc_u32 code ++ tl) with (body ++ tl)
+    by (unfold body; rewrite <- app_assoc; reflexivity).
+  apply decode_frame_parts; [reflexivity|reflexivity|exact Hh|].
+  unfold frame_body. cbn [ftyp payload_len]. change (GOAWAY_PAYLOAD_SIZE <=? 8) with true. cbv iota.
+  unfold goaway_frame. cbn [payload_len].
+  rewrite (take_app 8 body tl) by reflexivity.
+  unfold body. rewrite be_u32_enc. rewrite be_u32_enc_nil.
+  rewrite (N.mod_small code) by exact Hc.
+  rewrite land_mask_idem. reflexivity.
+Qed.
+
+(** PING acknowledgement *)
+Lemma ping_ack_roundtrip payload tl max :
+  length payload = 8%nat -> 8 <= max ->
+  decode_frame (ping_ack_bytes payload ++ tl) max = Ok 17 (mkfh 8 FPing 1 0) (Ping payload true).
+Proof.
+  intros Hl Hm. unfold ping_ack_bytes. rewrite <- app_assoc.
+  assert (Hh : frame_header (PING_ACKNOWLEDGEMENT_HEADER ++ payload ++ tl) max = POk (payload ++ tl) (mkfh 8 FPing 1 0)).
+  { unfold frame_header, PING_ACKNOWLEDGEMENT_HEADER. cbn [app be_u24 be_u8 be_u32].
+    change ((0 * 256 + 0) * 256 + 8) with 8.
+    destruct (max <? 8) eqn:E; [apply N.ltb_lt in E; lia|]. reflexivity. }
+  change 17 with (9 + payload_len (mkfh 8 FPing 1 0)).
+  apply decode_frame_parts; [reflexivity|unfold len; rewrite Hl; reflexivity|exact Hh|].
+  unfold frame_body. cbn [ftyp payload_len]. change (8 =? PING_PAYLOAD_SIZE) with true. cbv iota.
+  unfold ping_frame. cbn [payload_len fflags].
+  rewrite (take_app 8 payload tl) by (unfold len; rewrite Hl; reflexivity).
+  rewrite <- Hl, firstn_all. reflexivity.
+Qed.
+
+(** SETTINGS acknowledgement (the canned 9 bytes) *)
+Lemma take_zero l : take 0 l = Some ([], l).
+Proof. unfold take. destruct (len l <? 0) eqn:E; [apply N.ltb_lt in E; lia|]. reflexivity. Qed.
+
+Lemma settings_ack_roundtrip tl max :
+  decode_frame (SETTINGS_ACKNOWLEDGEMENT ++ tl) max = Ok 9 (mkfh 0 FSettings 1 0) (Settings [] true).
+Proof.
+  assert (Hh : frame_header (SETTINGS_ACKNOWLEDGEMENT ++ [] ++ tl) max = POk ([] ++ tl) (mkfh 0 FSettings 1 0)).
+  { unfold frame_header, SETTINGS_ACKNOWLEDGEMENT. cbn [app be_u24 be_u8 be_u32].
+    change ((0 * 256 + 0) * 256 + 0) with 0.
+    destruct (max <? 0) eqn:E; [apply N.ltb_lt in E; lia|]. reflexivity. }
+  change (SETTINGS_ACKNOWLEDGEMENT ++ tl) with (SETTINGS_ACKNOWLEDGEMENT ++ [] ++ tl).
+  change 9 with (9 + payload_len (mkfh 0 FSettings 1 0)).
+  apply decode_frame_parts; [reflexivity|reflexivity|exact Hh|].
+  unfold frame_body. cbn [ftyp payload_len fflags app].
+  change (has_flag 1 FLAG_ACK && negb (0 =? 0)) with false. cbv iota.
+  change (0 mod SETTINGS_ENTRY_SIZE =? 0) with true. cbv iota.
+  unfold settings_frame. cbn [payload_len fflags].
+  change (MAX_SETTINGS_ENTRIES <? 0 / SETTINGS_ENTRY_SIZE) with false. cbv iota.
+  rewrite take_zero. reflexivity.
+Qed.
+
+(** SETTINGS (the 8 entries sozu announces) *)
+Lemma settings_entries_enc fuel id v tl :
+  id < 65536 -> v < 4294967296 ->
+  settings_entries (S fuel) (enc_u16 id ++ enc_u32 v ++ tl) = (id, v) :: settings_entries fuel tl.
+Proof.
+  intros Hi Hv. cbn [settings_entries]. rewrite be_u16_enc, be_u32_enc.
+  rewrite (N.mod_small id) by exact Hi. rewrite (N.mod_small v) by exact Hv. reflexivity.
+Qed.
+
+Definition settings_small (s : h2settings) : Prop :=
+  s_header_table_size s < 4294967296 /\ s_max_concurrent_streams s < 4294967296 /\
+  s_initial_window_size s < 4294967296 /\ s_max_frame_size s < 4294967296 /\
+  s_max_header_list_size s < 4294967296.
+
+Lemma b2n_small b : b2n b < 4294967296.
+Proof. destruct b; reflexivity. Qed.
+
+Lemma settings_roundtrip s tl max :
+  settings_small s -> 48 <= max ->
+  decode_frame (settings_bytes s ++ tl) max = Ok 57 (mkfh 48 FSettings 0 0) (Settings (settings_list s) false).
+Proof.
+  intros (H1 & H2 & H3 & H4 & H5) Hm. unfold settings_bytes. rewrite <- app_assoc.
+  change (SETTINGS_ENTRY_SIZE * SETTINGS_COUNT) with 48.
+  set (body := flat_map (fun e => enc_u16 (fst e) ++ enc_u32 (snd e)) (settings_list s)).
+  assert (Hh : frame_header (frame_header_bytes (mkfh 48 FSettings 0 0) ++ body ++ tl) max =
+               POk (body ++ tl) (mkfh 48 FSettings 0 0)).
+  { apply (frame_header_roundtrip (mkfh 48 FSettings 0 0)); cbn; try lia; try exact I. all: reflexivity. }
+  change 57 with (9 + payload_len (mkfh 48 FSettings 0 0)).
+  apply decode_frame_parts; [reflexivity|reflexivity|exact Hh|].
+  unfold frame_body. cbn [ftyp payload_len fflags].
+  change (has_flag 0 FLAG_ACK && negb (48 =? 0)) with false. cbv iota.
+  change (48 mod SETTINGS_ENTRY_SIZE =? 0) with true. cbv iota.
+  unfold settings_frame. cbn [payload_len fflags].
+  change (MAX_SETTINGS_ENTRIES <? 48 / SETTINGS_ENTRY_SIZE) with false. cbv iota.
+  rewrite (take_app 48 body tl) by reflexivity.
+  change (has_flag 0 FLAG_ACK) with false.
+  f_equal. f_equal.
+  change (length body) with 48%nat.
+  unfold body, settings_list. cbn [flat_map fst snd]. rewrite <- !app_assoc.
+  pose proof (b2n_small (s_enable_push s)). pose proof (b2n_small (s_enable_connect_protocol s)).
+  pose proof (b2n_small (s_no_rfc7540_priorities s)).
+  do 8 (rewrite settings_entries_enc by (assumption || reflexivity)).
+  reflexivity.
+Qed.
+
+(** DATA and HEADERS as the converter emits them (no PADDED, no PRIORITY flag) *)
+Lemma data_roundtrip sid flags payload tl max :
+  N.land sid STREAM_ID_MASK <> 0 -> flags < 256 -> has_flag flags FLAG_PADDED = false ->
+  len payload < 16777216 -> len payload <= max ->
+  decode_frame (frame_header_bytes (mkfh (len payload) FData flags sid) ++ payload ++ tl) max =
+  Ok (9 + len payload) (mkfh (len payload) FData flags (N.land sid STREAM_ID_MASK))
+     (Data (N.land sid STREAM_ID_MASK) 0 payload (has_flag flags FLAG_END_STREAM)).
+Proof.
+  intros Hs Hf Hp Hl Hm.
+  set (h' := mkfh (len payload) FData flags (N.land sid STREAM_ID_MASK)).
+  assert (Hh : frame_header (frame_header_bytes (mkfh (len payload) FData flags sid) ++ payload ++ tl) max =
+               POk (payload ++ tl) h').
+  { apply (frame_header_roundtrip (mkfh (len payload) FData flags sid)); cbn [ftyp payload_len fflags stream_id known_type];
+      try assumption; try exact I.
+    unfold valid_stream_id. cbn. destruct (N.land sid STREAM_ID_MASK =? 0) eqn:E; [apply N.eqb_eq in E; contradiction|reflexivity]. }
+  replace (9 + len payload) with (9 + payload_len h') by reflexivity.
+  apply decode_frame_parts; [reflexivity|reflexivity|exact Hh|].
+  unfold frame_body, h'. cbn [ftyp]. unfold data_frame. cbn [payload_len fflags stream_id].
+  rewrite (take_app (len payload) payload tl) by reflexivity.
+  unfold strip_padding. rewrite Hp. unfold unpad.
+  destruct (len payload <? 0) eqn:E; [apply N.ltb_lt in E; lia|].
+  rewrite N.sub_0_r, N.sub_diag. unfold len. rewrite Nat2N.id, firstn_all. reflexivity.
+Qed.
+
+Lemma headers_roundtrip sid flags fragment tl max :
+  N.land sid STREAM_ID_MASK <> 0 -> flags < 256 ->
+  has_flag flags FLAG_PADDED = false -> has_flag flags FLAG_PRIORITY = false ->
+  len fragment < 16777216 -> len fragment <= max ->
+  decode_frame (frame_header_bytes (mkfh (len fragment) FHeaders flags sid) ++ fragment ++ tl) max =
+  Ok (9 + len fragment) (mkfh (len fragment) FHeaders flags (N.land sid STREAM_ID_MASK))
+     (Headers (N.land sid STREAM_ID_MASK) None 0 fragment (has_flag flags FLAG_END_STREAM) (has_flag flags FLAG_END_HEADERS)).
+Proof.
+  intros Hs Hf Hp Hpr Hl Hm.
+  set (h' := mkfh (len fragment) FHeaders flags (N.land sid STREAM_ID_MASK)).
+  assert (Hh : frame_header (frame_header_bytes (mkfh (len fragment) FHeaders flags sid) ++ fragment ++ tl) max =
+               POk (fragment ++ tl) h').
+  { apply (frame_header_roundtrip (mkfh (len fragment) FHeaders flags sid)); cbn [ftyp payload_len fflags stream_id known_type];
+      try assumption; try exact I.
+    unfold valid_stream_id. cbn. destruct (N.land sid STREAM_ID_MASK =? 0) eqn:E; [apply N.eqb_eq in E; contradiction|reflexivity]. }
+  replace (9 + len fragment) with (9 + payload_len h') by reflexivity.
+  apply decode_frame_parts; [reflexivity|reflexivity|exact Hh|].
+  unfold frame_body, h'. cbn [ftyp]. unfold headers_frame. cbn [payload_len fflags stream_id].
+  rewrite (take_app (len fragment) fragment tl) by reflexivity.
+  unfold strip_padding. rewrite Hp, Hpr. unfold unpad.
+  destruct (len fragment <? 0) eqn:E; [apply N.ltb_lt in E; lia|].
+  rewrite N.sub_0_r, N.sub_diag. unfold len. rewrite Nat2N.id, firstn_all. reflexivity.
+Qed.
+
+(* ------------------------------------------------------------------ *)
+(** * Error classes (RFC 9113 sections 4.2, 6.x) *)
+
+Definition raw_header (plen t fl raw : N) : list N := enc_u24 plen ++ [t; fl] ++ enc_u32 raw.
+
+Lemma header_too_large plen t fl raw rest max :
+  plen < 16777216 -> max < plen ->
+  decode_frame (raw_header plen t fl raw ++ rest) max = Fail FrameSizeError.
+Proof.
+  intros Hp Hm. unfold decode_frame, frame_header, raw_header. rewrite <- !app_assoc.
+  rewrite be_u24_enc, (N.mod_small _ _ Hp).
+  destruct (max <? plen) eqn:E; [reflexivity|apply N.ltb_ge in E; lia].
+Qed.
+
+Lemma header_bad_stream_id plen t fl raw rest max :
+  plen < 16777216 -> plen <= max ->
+  valid_stream_id (convert_frame_type t) (N.land (raw mod 4294967296) STREAM_ID_MASK) = false ->
+  decode_frame (raw_header plen t fl raw ++ rest) max = Fail ProtocolError.
+Proof.
+  intros Hp Hm Hv. unfold decode_frame, frame_header, raw_header. rewrite <- !app_assoc.
+  rewrite be_u24_enc, (N.mod_small _ _ Hp).
+  destruct (max <? plen) eqn:E; [apply N.ltb_lt in E; lia|].
+  cbn [app be_u8]. rewrite be_u32_enc, Hv. reflexivity.
+Qed.
+
+(** the stream-id table of RFC 9113: which (type byte, stream id) pairs are connection errors *)
+Lemma stream_id_table t sid :
+  valid_stream_id (convert_frame_type t) sid =
+  if (t =? 0) || (t =? 1) || (t =? 2) || (t =? 3) || (t =? 5) || (t =? 9) then negb (sid =? 0)
+  else if (t =? 4) || (t =? 6) || (t =? 7) || (t =? 16) then sid =? 0
+  else true.
+Proof.
+  unfold convert_frame_type.
+  destruct (N.leb t 16) eqn:Ht.
+  - apply N.leb_le in Ht.
+    assert (Hc : t = 0 \/ t = 1 \/ t = 2 \/ t = 3 \/ t = 4 \/ t = 5 \/ t = 6 \/ t = 7 \/ t = 8 \/ t = 9 \/
+                 t = 10 \/ t = 11 \/ t = 12 \/ t = 13 \/ t = 14 \/ t = 15 \/ t = 16) by lia.
+    repeat (destruct Hc as [-> | Hc]); try subst t; reflexivity.
+  - apply N.leb_gt in Ht.
+    assert (Hn : assoc t type_of_byte_table = None).
+    { unfold type_of_byte_table. cbn [assoc].
+      repeat (match goal with |- context [?a =? t] => let E := fresh "E" in destruct (a =? t) eqn:E; [apply N.eqb_eq in E; lia|clear E] end).
+      reflexivity. }
+    rewrite Hn.
+    repeat (match goal with |- context [t =? ?a] => let E := fresh "E" in destruct (t =? a) eqn:E; [apply N.eqb_eq in E; lia|clear E] end).
+    reflexivity.
+Qed.
+
+(** fixed-size and structural rules of [frame_body]: FRAME_SIZE_ERROR, whatever the bytes *)
+Lemma body_size_errors i h :
+  (ftyp h = FPriority /\ payload_len h <> 5) \/
+  (ftyp h = FRstStream /\ payload_len h <> 4) \/
+  (ftyp h = FPing /\ payload_len h <> 8) \/
+  (ftyp h = FWindowUpdate /\ payload_len h <> 4) \/
+  (ftyp h = FGoAway /\ payload_len h < 8) \/
+  (ftyp h = FSettings /\ payload_len h mod 6 <> 0) \/
+  (ftyp h = FSettings /\ has_flag (fflags h) 1 = true /\ payload_len h <> 0) \/
+  (ftyp h = FPriorityUpdate /\ payload_len h < 4) ->
+  frame_body i h = PFail FrameSizeError.
+Proof.
+  unfold frame_body.
+  intros [[-> H]|[[-> H]|[[-> H]|[[-> H]|[[-> H]|[[-> H]|[[-> [H1 H2]]|[-> H]]]]]]]].
+  - change PRIORITY_PAYLOAD_SIZE with 5. destruct (payload_len h =? 5) eqn:E; [apply N.eqb_eq in E; contradiction|reflexivity].
+  - change RST_STREAM_PAYLOAD_SIZE with 4. destruct (payload_len h =? 4) eqn:E; [apply N.eqb_eq in E; contradiction|reflexivity].
+  - change PING_PAYLOAD_SIZE with 8. destruct (payload_len h =? 8) eqn:E; [apply N.eqb_eq in E; contradiction|reflexivity].
+  - change WINDOW_UPDATE_PAYLOAD_SIZE with 4. destruct (payload_len h =? 4) eqn:E; [apply N.eqb_eq in E; contradiction|reflexivity].
+  - change GOAWAY_PAYLOAD_SIZE with 8. destruct (8 <=? payload_len h) eqn:E; [apply N.leb_le in E; lia|reflexivity].
+  - change SETTINGS_ENTRY_SIZE with 6.
+    destruct (has_flag (fflags h) FLAG_ACK && negb (payload_len h =? 0)); [reflexivity|].
+    destruct (payload_len h mod 6 =? 0) eqn:E; [apply N.eqb_eq in E; contradiction|reflexivity].
+  - change FLAG_ACK with 1. rewrite H1.
+    destruct (payload_len h =? 0) eqn:E; [apply N.eqb_eq in E; contradiction|reflexivity].
+  - unfold priority_update_frame. change PRIORITY_UPDATE_MIN_PAYLOAD with 4.
+    destruct (payload_len h <? 4) eqn:E; [reflexivity|apply N.ltb_ge in E; lia].
+Qed.
+
+(** PUSH_PROMISE is always a PROTOCOL_ERROR once its payload is there; padding
+    that does not fit in what remains of the payload is a PROTOCOL_ERROR *)
+Lemma push_promise_error payload tl h :
+  ftyp h = FPushPromise -> len payload = payload_len h ->
+  frame_body (payload ++ tl) h = PFail ProtocolError.
+Proof.
+  intros Ht Hl. unfold frame_body. rewrite Ht. unfold push_promise_frame.
+  rewrite (take_app _ payload tl) by exact Hl. reflexivity.
+Qed.
+
+Lemma data_padding_error pad content tl h :
+  ftyp h = FData -> has_flag (fflags h) FLAG_PADDED = true ->
+  payload_len h = 1 + len content -> len content < pad ->
+  frame_body ((pad :: content) ++ tl) h = PFail ProtocolError.
+Proof.
+  intros Ht Hp Hl Hc. unfold frame_body. rewrite Ht. unfold data_frame.
+  rewrite (take_app _ (pad :: content) tl) by (rewrite len_cons; lia).
+  unfold strip_padding. rewrite Hp. cbn [be_u8].
+  destruct (len content <? pad) eqn:E; [reflexivity|apply N.ltb_ge in E; lia].
+Qed.
+
+Lemma headers_padding_error pad content tl h :
+  ftyp h = FHeaders -> has_flag (fflags h) FLAG_PADDED = true -> has_flag (fflags h) FLAG_PRIORITY = true ->
+  payload_len h = 1 + len content -> 5 <= len content -> len content - 5 < pad ->
+  frame_body ((pad :: content) ++ tl) h = PFail ProtocolError.
+Proof.
+  intros Ht Hp Hpr Hl H5 Hc. unfold frame_body. rewrite Ht. unfold headers_frame.
+  rewrite (take_app _ (pad :: content) tl) by (rewrite len_cons; lia).
+  unfold strip_padding. rewrite Hp. cbn [be_u8].
+  destruct (len content <? pad) eqn:E; [reflexivity|]. rewrite Hpr.
+  destruct content as [|a [|b [|c [|d [|e r]]]]]; rewrite ?len_cons, ?len_nil in H5; try lia.
+  unfold stream_dependency. cbn [be_u32 be_u8]. unfold unpad.
+  rewrite !len_cons in Hc.
+  destruct (len r <? pad) eqn:E2; [reflexivity|apply N.ltb_ge in E2; lia].
+Qed.
+
+(* ------------------------------------------------------------------ *)
+(** * Flood detector *)
+
+Definition under (d : flood) : Prop :=
+  let c := cfg d in
+  rst_c d <= max_rst_w c /\ ping_c d <= max_ping_w c /\ ping_life d <= DEFAULT_MAX_PING_LIFETIME /\
+  settings_c d <= max_settings_w c /\ settings_life d <= DEFAULT_MAX_SETTINGS_LIFETIME /\
+  empty_c d <= max_empty_w c /\ cont_c d <= max_cont c /\ wu0_c d <= max_wu0_w c /\
+  acc_size d <= max_hls c /\ glitch_c d <= max_glitch c.
+
+Lemma flag_none k c t : flag k c t = None <-> c <= t.
+Proof. unfold flag. destruct (t <? c) eqn:E; [apply N.ltb_lt in E|apply N.ltb_ge in E]; split; intros H; try discriminate; try reflexivity; lia. Qed.
+
+Lemma or_else_none {A} (a b : option A) : or_else a b = None <-> a = None /\ b = None.
+Proof. destruct a; cbn; split; intros H; try discriminate; try tauto; destruct H; discriminate. Qed.
+
+Lemma first_violation_none d : first_violation d = None <-> under d.
+Proof.
+  unfold first_violation, under. cbv zeta.
+  rewrite !or_else_none, !flag_none. tauto.
+Qed.
+
+Lemma flag_some k c t k' c' t' : flag k c t = Some (k', c', t') -> t' < c'.
+Proof. unfold flag. destruct (t <? c) eqn:E; [|discriminate]. intros H; inversion H; subst. apply N.ltb_lt; exact E. Qed.
+
+Lemma or_else_some {A} (a b : option A) x : or_else a b = Some x -> a = Some x \/ b = Some x.
+Proof. destruct a; cbn; intros H; [left|right]; exact H. Qed.
+
+Lemma first_violation_some d k c t : first_violation d = Some (k, c, t) -> t < c.
+Proof.
+  unfold first_violation. cbv zeta. intros H.
+  repeat (apply or_else_some in H; destruct H as [H|H]; [eapply flag_some; exact H|]).
+  eapply flag_some; exact H.
+Qed.
+
+Lemma half_le x : x / 2 <= x.
+Proof. apply N.div_le_upper_bound; [discriminate|lia]. Qed.
+
+(** decay never increases a counter, and never touches a lifetime counter *)
+Lemma decay_monotone d :
+  let d' := maybe_reset_window d in
+  Forall2 N.le (counters d') (counters d) /\
+  rst_life d' = rst_life d /\ rst_abusive d' = rst_abusive d /\ rst_emitted d' = rst_emitted d /\
+  ping_life d' = ping_life d /\ settings_life d' = settings_life d /\ cfg d' = cfg d.
+Proof.
+  cbv zeta. unfold maybe_reset_window. destruct (FLOOD_WINDOW_MS <=? age d).
+  - cbn [counters rst_life rst_abusive rst_emitted ping_life settings_life cfg
+         rst_c ping_c settings_c empty_c wu0_c cont_c acc_size glitch_c].
+    split; [|repeat split; reflexivity].
+    repeat constructor; try apply half_le; try apply N.le_refl.
+  - split; [|repeat split; reflexivity].
+    unfold counters. repeat constructor; apply N.le_refl.
+Qed.
+
+(** a silent [check_flood] certifies every counter is within its threshold:
+    no connection keeps running with a counter above its limit *)
+Lemma check_flood_silent d : snd (check_flood d) = None -> under (fst (check_flood d)).
+Proof. unfold check_flood. cbn [fst snd]. apply first_violation_none. Qed.
+
+Lemma check_flood_trip d k c t : snd (check_flood d) = Some (k, c, t) -> t < c.
+Proof. unfold check_flood. cbn [snd]. apply first_violation_some. Qed.
+
+(** windowed kinds and their thresholds *)
+Definition kind (k : N) : Prop := k = 0 \/ k = 4 \/ k = 6 \/ k = 8 \/ k = 9 \/ k = 10 \/ k = 12.
+
+Definition threshold (d : flood) (k : N) : N :=
+  let c := cfg d in
+  match k with
+  | 0 => max_rst_w c | 4 => max_ping_w c | 6 => max_settings_w c | 8 => max_empty_w c
+  | 9 => max_wu0_w c | 10 => max_cont c | _ => max_glitch c
+  end.
+
+Lemma under_kind d k : kind k -> under d -> nth_counter d k <= threshold d k.
+Proof.
+  unfold under, kind, threshold. cbv zeta.
+  intros Hk (H0 & H1 & H2 & H3 & H4 & H5 & H6 & H7 & H8 & H9).
+  repeat (destruct Hk as [-> | Hk]); try subst k; cbn [nth_counter]; assumption.
+Qed.
+
+Lemma bump_spec d k :
+  kind k -> nth_counter d k < U32 - 1 ->
+  nth_counter (bump d k) k = nth_counter d k + 1 /\ cfg (bump d k) = cfg d /\ age (bump d k) = age d.
+Proof.
+  unfold kind, bump. intros Hk Hlt. destruct d as [a0 a1 a2 a3 a4 a5 a6 a7 a8 a9 a10 a11 a12 ag cf].
+  repeat (destruct Hk as [-> | Hk]); try subst k;
+    cbn [nth_counter N.eqb Pos.eqb set_counter
+         rst_c ping_c settings_c empty_c wu0_c cont_c glitch_c cfg age ping_life settings_life] in *;
+    unfold wrap32, sat_add, U32 in *;
+    (split; [|split; reflexivity]);
+    try (rewrite N.mod_small by lia; reflexivity).
+  rewrite N.mod_small by lia. lia.
+Qed.
+
+Lemma no_decay d : age d < FLOOD_WINDOW_MS -> maybe_reset_window d = d.
+Proof.
+  intros H. unfold maybe_reset_window.
+  destruct (FLOOD_WINDOW_MS <=? age d) eqn:E; [apply N.leb_le in E; lia|reflexivity].
+Qed.
+
+(** one more counted frame when the counter already sits at its threshold trips *)
+Lemma trip_at_threshold d k :
+  kind k -> age d < FLOOD_WINDOW_MS -> threshold d k < U32 - 1 ->
+  nth_counter d k = threshold d k ->
+  snd (on_event d k) <> None.
+Proof.
+  intros Hk Ha Ht Hc. unfold on_event, check_flood. cbn [snd].
+  destruct (bump_spec d k Hk) as (Hb & Hcfg & Hage); [lia|].
+  rewrite no_decay by (rewrite Hage; exact Ha).
+  intros Hn. apply first_violation_none in Hn.
+  pose proof (under_kind _ k Hk Hn) as Hu.
+  unfold threshold in *. rewrite Hcfg in Hu. lia.
+Qed.
+
+Fixpoint run_events (d : flood) (ks : list N) : flood * bool :=
+  match ks with
+  | [] => (d, false)
+  | k :: r =>
+    match on_event d k with
+    | (d', Some _) => (d', true)
+    | (d', None) => run_events d' r
+    end
+  end.
+
+(** threshold+1 qualifying frames inside one window always trip *)
+Lemma flood_trips_l k ks : forall d,
+  kind k -> Forall (fun x => x = k) ks ->
+  age d < FLOOD_WINDOW_MS -> threshold d k < U32 - 1 ->
+  nth_counter d k <= threshold d k ->
+  threshold d k < nth_counter d k + N.of_nat (length ks) ->
+  snd (run_events d ks) = true.
+Proof.
+  induction ks as [|x r IH]; intros d Hk Hall Ha Ht Hle Hgt.
+  - cbn [length] in Hgt. lia.
+  - inversion Hall as [|? ? Hx Hr]; subst x. cbn [run_events].
+    destruct (on_event d k) as [d' [v|]] eqn:E; [reflexivity|].
+    destruct (bump_spec d k Hk) as (Hb & Hcfg & Hage); [lia|].
+    assert (Hd' : d' = bump d k).
+    { unfold on_event, check_flood in E. rewrite no_decay in E by (rewrite Hage; exact Ha).
+      inversion E; reflexivity. }
+    assert (Hu : under d').
+    { pose proof (check_flood_silent (bump d k)) as Hs. fold (on_event d k) in Hs. rewrite E in Hs. apply Hs; reflexivity. }
+    apply IH; try assumption.
+    + rewrite Hd', Hage; exact Ha.
+    + unfold threshold in *. rewrite Hd', Hcfg. exact Ht.
+    + apply under_kind; assumption.
+    + unfold threshold in *. rewrite Hd', Hcfg, Hb. cbn [length] in Hgt. lia.
+Qed.
+
+(* ------------------------------------------------------------------ *)
+(** * Slot table *)
+
+Definition tbl_ok (t : table) : Prop :=
+  (forall sid g, In (sid, g) (smap t) -> exists s, nth_error (slots t) g = Some (Live s)) /\
+  NoDup (map snd (smap t)).
+
+Lemma position_spec l g : position l = Some g -> nth_error l g = Some Recycle /\ (g < length l)%nat.
+Proof.
+  revert g. induction l as [|s r IH]; intros g; cbn [position]; [discriminate|].
+  destruct s; cbn [is_recycle].
+  - destruct (position r) as [g'|]; cbn [option_map]; [|discriminate].
+    intros H; inversion H; subst. destruct (IH g' eq_refl) as [A B]. cbn [nth_error length]. split; [exact A|lia].
+  - intros H; inversion H; subst. cbn. split; [reflexivity|lia].
+Qed.
+
+Lemma position_none l : position l = None -> forall g, nth_error l g <> Some Recycle.
+Proof.
+  induction l as [|s r IH]; intros H g; [destruct g; discriminate|].
+  cbn [position] in H. destruct s; cbn [is_recycle] in H; [|discriminate].
+  destruct (position r) eqn:E; [discriminate|]. destruct g; cbn [nth_error]; [discriminate|]. apply IH; reflexivity.
+Qed.
+
+Lemma set_nth_same l g v : (g < length l)%nat -> nth_error (set_nth l g v) g = Some v.
+Proof. revert g. induction l as [|a r IH]; intros g H; [cbn in H; lia|]. destruct g; cbn; [reflexivity|]. apply IH. cbn in H; lia. Qed.
+
+Lemma set_nth_other l g g' v : g <> g' -> nth_error (set_nth l g v) g' = nth_error l g'.
+Proof. revert g g'. induction l as [|a r IH]; intros g g' H; [reflexivity|]. destruct g, g'; cbn; try reflexivity; try lia. apply IH. lia. Qed.
+
+Lemma set_nth_length l g v : length (set_nth l g v) = length l.
+Proof. revert g. induction l as [|a r IH]; intros g; [reflexivity|]. destruct g; cbn; [reflexivity|]. rewrite IH; reflexivity. Qed.
+
+Lemma shrink_prefix l : exists k, l = shrink_trailing l ++ repeat Recycle k.
+Proof.
+  induction l as [|s r [k IH]]; [exists 0%nat; reflexivity|].
+  cbn [shrink_trailing]. destruct (shrink_trailing r) as [|a r'] eqn:E.
+  - cbn [app] in IH. destruct s; cbn [is_recycle].
+    + exists k. rewrite IH. reflexivity.
+    + exists (S k). rewrite IH. reflexivity.
+  - exists k. rewrite IH at 1. reflexivity.
+Qed.
+
+Lemma shrink_keeps_live l g s : nth_error l g = Some (Live s) -> nth_error (shrink_trailing l) g = Some (Live s).
+Proof.
+  destruct (shrink_prefix l) as [k Hk]. intros H. rewrite Hk in H.
+  destruct (Nat.lt_ge_cases g (length (shrink_trailing l))) as [Hlt|Hge].
+  - rewrite nth_error_app1 in H by exact Hlt. exact H.
+  - rewrite nth_error_app2 in H by exact Hge. exfalso.
+    apply nth_error_In in H. apply repeat_spec in H. discriminate.
+Qed.
+
+Lemma tbl_ok_shrink sl m r : tbl_ok (mktable sl m r) -> tbl_ok (mktable (shrink_trailing sl) m r).
+Proof.
+  intros [A B]. split; [|exact B]. cbn [slots smap] in *. intros sid g Hin.
+  destruct (A sid g Hin) as [s Hs]. exists s. apply shrink_keeps_live. exact Hs.
+Qed.
+
+Lemma create_ok t sid : tbl_ok t -> tbl_ok (fst (fst (create t sid))).
+Proof.
+  intros [A B]. unfold create. destruct (position (slots t)) as [g|] eqn:P.
+  - apply position_spec in P. destruct P as [Pr Pl].
+    set (sl := set_nth (slots t) g (Live sid)).
+    assert (Hok : tbl_ok (mktable sl ((sid, g) :: smap t) (ratio t))).
+    { split; cbn [slots smap map snd].
+      - intros s2 g2 [Heq|Hin].
+        + inversion Heq; subst s2 g2. exists sid. apply set_nth_same; exact Pl.
+        + destruct (A s2 g2 Hin) as [s Hs]. exists s.
+          unfold sl. rewrite set_nth_other; [exact Hs|]. intros ->. rewrite Pr in Hs. discriminate.
+      - constructor; [|exact B]. intros Hin. apply in_map_iff in Hin. destruct Hin as [[s2 g2] [Hg Hin]].
+        cbn in Hg; subst g2. destruct (A s2 g Hin) as [s Hs]. rewrite Pr in Hs. discriminate. }
+    cbn [fst]. destruct (_ && _); [apply tbl_ok_shrink|]; exact Hok.
+  - cbn [fst]. split; cbn [slots smap map snd].
+    + intros s2 g2 [Heq|Hin].
+      * inversion Heq; subst s2 g2. exists sid. rewrite nth_error_app2 by lia. rewrite Nat.sub_diag. reflexivity.
+      * destruct (A s2 g2 Hin) as [s Hs]. exists s. rewrite nth_error_app1; [exact Hs|].
+        apply nth_error_Some. rewrite Hs. discriminate.
+    + constructor; [|exact B]. intros Hin. apply in_map_iff in Hin. destruct Hin as [[s2 g2] [Hg Hin]].
+      cbn in Hg; subst g2. destruct (A s2 _ Hin) as [s Hs].
+      assert (length (slots t) < length (slots t))%nat by (apply nth_error_Some; rewrite Hs; discriminate). lia.
+Qed.
+
+Lemma lookup_in k m g : lookup k m = Some g -> In (k, g) m.
+Proof.
+  induction m as [|[a b] r IH]; cbn [lookup]; [discriminate|].
+  destruct (a =? k) eqn:E; [apply N.eqb_eq in E; subst; intros H; inversion H; left; reflexivity|].
+  intros H; right; apply IH; exact H.
+Qed.
+
+Lemma remove_key_in k m sid g : In (sid, g) (remove_key k m) -> In (sid, g) m /\ sid <> k.
+Proof.
+  unfold remove_key. rewrite filter_In. cbn [fst]. intros [H1 H2]. split; [exact H1|].
+  destruct (sid =? k) eqn:E; [discriminate|]. apply N.eqb_neq; exact E.
+Qed.
+
+Lemma nodup_remove_key k (m : list (N * nat)) : NoDup (map snd m) -> NoDup (map snd (remove_key k m)).
+Proof.
+  induction m as [|[a b] r IH]; cbn [remove_key filter map snd]; [intros; constructor|].
+  intros H. inversion H as [|? ? Hn Hr]; subst. cbn [fst].
+  destruct (negb (a =? k)); [|apply IH; exact Hr].
+  cbn [map snd]. constructor; [|apply IH; exact Hr].
+  intros Hin. apply Hn. apply in_map_iff in Hin. destruct Hin as [[s g] [Hg Hin]].
+  apply in_map_iff. exists (s, g). split; [exact Hg|]. unfold remove_key in Hin. apply filter_In in Hin. tauto.
+Qed.
+
+Lemma nodup_snd_inj (m : list (N * nat)) s1 s2 g : NoDup (map snd m) -> In (s1, g) m -> In (s2, g) m -> s1 = s2.
+Proof.
+  induction m as [|[a b] r IH]; cbn [map snd]; [intros _ []|].
+  intros H H1 H2. inversion H as [|? ? Hn Hr]; subst.
+  destruct H1 as [E1|H1], H2 as [E2|H2].
+  - inversion E1; inversion E2; subst; reflexivity.
+  - inversion E1; subst. exfalso. apply Hn. apply in_map_iff. exists (s2, g). split; [reflexivity|exact H2].
+  - inversion E2; subst. exfalso. apply Hn. apply in_map_iff. exists (s1, g). split; [reflexivity|exact H1].
+  - apply IH; assumption.
+Qed.
+
+Lemma kill_ok t sid : tbl_ok t -> tbl_ok (fst (kill t sid)).
+Proof.
+  intros [A B]. unfold kill. destruct (lookup sid (smap t)) as [g|] eqn:L; cbn [fst]; [|split; assumption].
+  apply lookup_in in L. split; cbn [slots smap].
+  - intros s2 g2 Hin. apply remove_key_in in Hin. destruct Hin as [Hin Hne].
+    destruct (A s2 g2 Hin) as [s Hs]. exists s. rewrite set_nth_other; [exact Hs|].
+    intros ->. apply Hne. eapply nodup_snd_inj; eauto.
+  - apply nodup_remove_key; exact B.
+Qed.
+
+Inductive sop := SCreate (sid : N) | SKill (sid : N) | SShrink | SAccept (max : nat) (sid : N).
+
+Definition sstep (t : table) (o : sop) : table :=
+  match o with
+  | SCreate sid => fst (fst (create t sid))
+  | SKill sid => fst (kill t sid)
+  | SShrink => shrink t
+  | SAccept mx sid => fst (accept_stream t mx sid)
+  end.
+
+Lemma sstep_ok t o : tbl_ok t -> tbl_ok (sstep t o).
+Proof.
+  intros H. destruct o as [sid|sid| |mx sid]; cbn [sstep].
+  - apply create_ok; exact H.
+  - apply kill_ok; exact H.
+  - destruct t as [sl m r]. apply tbl_ok_shrink. exact H.
+  - unfold accept_stream. destruct (_ <=? _)%nat; [exact H|].
+    pose proof (create_ok t sid H) as Hc. destruct (create t sid) as [[t' g] b]. exact Hc.
+Qed.
+
+Lemma slots_valid_l ops : forall t, tbl_ok t -> tbl_ok (fold_left sstep ops t).
+Proof. induction ops as [|o r IH]; intros t H; [exact H|]. cbn [fold_left]. apply IH. apply sstep_ok; exact H. Qed.
+
+Lemma tbl_ok_empty r : tbl_ok (mktable [] [] r).
+Proof. split; [intros ? ? []|constructor]. Qed.
+
+(** concurrent streams never exceed the advertised maximum when every new
+    stream goes through the admission test *)
+Definition only_accept (mx : nat) (o : sop) : Prop :=
+  match o with SCreate _ => False | SAccept m _ => m = mx | _ => True end.
+
+Lemma remove_key_length k m : (length (remove_key k m) <= length m)%nat.
+Proof.
+  unfold remove_key. induction m as [|a r IH]; cbn [filter length]; [lia|].
+  destruct (negb (fst a =? k)); cbn [length]; lia.
+Qed.
+
+Lemma concurrent_bound_l mx ops : forall t,
+  Forall (only_accept mx) ops -> (length (smap t) <= mx)%nat -> (length (smap (fold_left sstep ops t)) <= mx)%nat.
+Proof.
+  induction ops as [|o r IH]; intros t Hall Hl; [exact Hl|].
+  inversion Hall as [|? ? Ho Hr]; subst. cbn [fold_left]. apply IH; [exact Hr|].
+  destruct o as [sid|sid| |max sid]; cbn [only_accept sstep] in *; try contradiction.
+  - unfold kill. destruct (lookup sid (smap t)); cbn [fst smap]; [|exact Hl].
+    pose proof (remove_key_length sid (smap t)). lia.
+  - exact Hl.
+  - subst max. unfold accept_stream. destruct (mx <=? length (smap t))%nat eqn:E; [exact Hl|].
+    apply Nat.leb_gt in E. unfold create.
+    destruct (position (slots t)); [destruct (_ && _)|]; cbn [fst smap length]; lia.
+Qed.
